@@ -443,6 +443,14 @@ Definition union_cond (S : schema) (sels : list selection) : bool :=
 (** ** The check *)
 Definition decode_fuel : nat := 400.
 
+(** Response keys of one selection set never differ in letter case only (the envelope's clause on
+    response keys).  Where this fails, which struct field encoding/json picks for a key depends on
+    the ORDER of the fields of the generated struct; the property says nothing there, so the
+    decoded leaves are not compared (generator verdict and "compiles" still are): re-ordering the
+    fields of the generated structs must not raise an alarm. *)
+Definition order_free (d : document) : bool :=
+  forallb (fun o => fold_safe (op_sels o)) (d_ops d) && forallb (fun f => fold_safe (fr_sels f)) (d_frags d).
+
 Definition gen_obs_agrees (m : gen_result) (o : gen_obs) : bool :=
   match m, o with
   | GOk _, ObsOk => true
@@ -569,7 +577,7 @@ Definition check (c : sexp) : sexp :=
                             | Some cb =>
                                 if negb (Bool.eqb wf cb) then v_mismatch "compiles" [of_bool wf]
                                 else
-                                  match (if cb then compare_runs p opname io else None) with
+                                  match (if cb && order_free d then compare_runs p opname io else None) with
                                   | Some v => v
                                   | None =>
                                       let shape_same := sexp_peq (shape_program p) (io_shape io) in
@@ -595,6 +603,7 @@ Definition check (c : sexp) : sexp :=
                                       v_ok (["valid"; "generated"] ++
                                             (if in_env then ["in-envelope"] else ["outside-envelope"]) ++
                                             (if cb then ["compiles"] else ["does-not-compile"]) ++
+                                            (if cb && negb (order_free d) then ["decode-not-compared-field-order-dependent"] else []) ++
                                             (if shape_same then ["shape-same"] else ["shape-differs"]) ++
                                             (if p_json p then ["typename-switch"] else []) ++
                                             (if existsb (fun o => existsb sel_repeated (op_sels o) || has_repeated_inline None (op_sels o)) (d_ops d)
